@@ -59,6 +59,9 @@ CLAIMS = {
  'C15': ("Decides must-validate-before-use on the OAuth client flow: every metadata fetch is dominated by a successful https-or-loopback check of the fetched URL; protected-resource metadata is returned only under resource equality with every authorization server scheme- and https-checked; authorization-server metadata only under issuer equality, PKCE and URL validation, (nil,nil) only for 4xx, and its errors are fatal for the caller (no silent fallback); the validation tables cover every *_endpoint/*_uri string field of the metadata structs and every endpoint the client consumes is https-checked; the code exchange is dominated by the state check (fresh rand.Text) and by validateIssuerResponse == nil, whose accept/reject table is evaluated on its CFG; tokenSource has exactly two writers, the exchange one after cfg.Exchange succeeded; the fallback uses the validated server and only without metadata; pre-registered credentials are issuer-bound. "
          "Not decided: ParseWWWAuthenticate over all header strings; the third-party oauth2 library.",
          "must-validate-before-use dominance, struct-tag table exhaustiveness, three-valued CFG evaluation of the issuer decision table, field-writer enumeration", "§3 C15"),
+ 'C16': ("Thin structural claim on the typed-tool wrapper: the user handler is dominated by applySchema(input, inputResolved, false) succeeding and by a case-sensitive internal/json decode of that function's result into the value passed to it; validation and decode failures return SetError results that cannot reach the handler; setSchema stores the resolved schema on every successful return; StructuredContent is assigned only from applySchema(outJSON, outputResolved, true) after its error test, output failures are errors; the text fallback branches are present; in applySchema defaults precede validation on the same value, every non-trivial return follows Validate, the 'defaults applied' flag is a faithful constant record so the defaulted value is what is returned. "
+         "Not decided: validity of values under the schema itself (delegated to jsonschema-go, trusted base).",
+         "dominance / guard rules on the wrapper's CFG, value-source rules, constant-flag analysis", "§3 C16"),
 }
 
 REASONS = {}
